@@ -785,7 +785,86 @@ def r18b_hoist_question_mark(text):
             return text, cnt
 
 
+def r22_entry_and_modify(text):
+    """R22: the Entry-API chain, as a statement,
+         RECV.entry(K).and_modify(|x| BODY).or_insert(V);   ->  { let k__ = K; match RECV.get_mut(&k__) { Some(x) => { BODY } None => { RECV.insert(k__, V); } } }
+         RECV.entry(K).and_modify(|x| BODY);                 ->  { let k__ = K; match RECV.get_mut(&k__) { Some(x) => { BODY } None => {} } }
+    This is the documented meaning of `Entry::and_modify` (run the closure on the value of an occupied entry) and
+    `Entry::or_insert` (insert the default into a vacant entry); K is evaluated once, first, as before; V is evaluated
+    only on the vacant path (std evaluates it eagerly, so V must be free of side effects: it is checked to contain no
+    call other than `.clone()` and struct/tuple construction).  The closure BODY is kept verbatim."""
+    cnt = 0
+    while True:
+        m = L.mask(text)
+        found = False
+        for r in re.finditer(r"([A-Za-z_][A-Za-z0-9_]*(?:\s*\.\s*[A-Za-z_][A-Za-z0-9_]*)*?)\s*\.\s*entry\s*\(", m):
+            # must start a statement
+            b = r.start() - 1
+            while b >= 0 and m[b].isspace():
+                b -= 1
+            if b >= 0 and m[b] not in ";{}":
+                continue
+            ko = r.end() - 1
+            kc = L.match_close(m, ko)
+            t = re.match(r"\s*\.\s*and_modify\s*\(", m[kc + 1:])
+            if not t:
+                continue
+            ao = kc + 1 + t.end() - 1
+            ac = L.match_close(m, ao)
+            cl = re.match(r"\s*\|\s*([A-Za-z_][A-Za-z0-9_]*)\s*\|", m[ao + 1:ac])
+            if not cl:
+                continue
+            body = text[ao + 1 + cl.end():ac].strip()
+            if not body.startswith("{"):
+                body = "{ " + body + "; }"
+            var = cl.group(1)
+            rest = m[ac + 1:]
+            t2 = re.match(r"\s*\.\s*or_insert\s*\(", rest)
+            if t2:
+                oo = ac + 1 + t2.end() - 1
+                oc = L.match_close(m, oo)
+                v = text[oo + 1:oc].strip()
+                t3 = re.match(r"\s*;", m[oc + 1:])
+                if not t3:
+                    continue
+                # V must be effect-free: only `.clone()` calls allowed
+                calls = re.findall(r"([A-Za-z_][A-Za-z0-9_]*)\s*\(", L.mask(v))
+                if any(c != "clone" for c in calls):
+                    continue
+                end = oc + 1 + t3.end()
+                none_arm = "None => { %s.insert(k__, %s); }" % (" ".join(text[r.start(1):r.end(1)].split()), v)
+            else:
+                t3 = re.match(r"\s*;", rest)
+                if not t3:
+                    continue
+                end = ac + 1 + t3.end()
+                none_arm = "None => {}"
+            recv = " ".join(text[r.start(1):r.end(1)].split())
+            key = text[ko + 1:kc].strip()
+            new = "{ let k__ = %s; match %s.get_mut(&k__) { Some(%s) => %s %s } }" % (key, recv, var, body, none_arm)
+            text = text[:r.start()] + new + text[end:]
+            cnt += 1
+            found = True
+            break
+        if not found:
+            return text, cnt
+
+
+def r23_hashmap_into_iter(text, exprs):
+    """R23: `for PAT in EXPR` where unit.toml declares EXPR to be a HashMap consumed by value ->
+    `for PAT in verif_hashmap_into_entries(EXPR)`: the contract-only helper returns the Vec of the map's entries in an
+    unspecified order, every key exactly once — the contract of `HashMap::into_iter` (vstd has no spec for
+    `hash_map::IntoIter`)."""
+    n = 0
+    for e in exprs:
+        pat = r"(\bfor\s+[^{;]*?\bin\s+)" + re.escape(e) + r"(\s*\{)"
+        text, k = re.subn(pat, lambda mo: mo.group(1) + "verif_hashmap_into_entries(" + e + ")" + mo.group(2), text)
+        n += k
+    return text, n
+
+
 RULES = {
+    "R22": r22_entry_and_modify,
     "R18b": r18b_hoist_question_mark,
     "R17b": r17b_tail_continue,
     "R20": r20_mut_self,
